@@ -75,12 +75,13 @@ type ShardResult struct {
 	Samples     []any          `json:"samples"`
 	Hashes      []uint64       `json:"-"`
 	Extra       map[string]map[string]int `json:"extra"` // named sets, e.g. transitions seen
+	Inconclusive map[string]int           `json:"inconclusive"`
 }
 
 func NewShardResult() *ShardResult {
 	return &ShardResult{
 		PerStratum: map[string]int{}, Features: map[string]int{}, Skips: map[string]int{},
-		VioByStratum: map[string]int{}, VioByReason: map[string]int{},
+		VioByStratum: map[string]int{}, VioByReason: map[string]int{}, Inconclusive: map[string]int{},
 		Known: map[string]int{}, KnownFirst: map[string]Violation{}, Extra: map[string]map[string]int{},
 	}
 }
@@ -150,6 +151,16 @@ func (c *Ctx) Nontrivial(key string) {
 	h.Write([]byte(c.Stratum[:1]))
 	h.Write([]byte(key))
 	c.res.Hashes = append(c.res.Hashes, h.Sum64())
+}
+
+// Inconclusive records that this case could not be judged for a reason that is not a property of
+// jd (e.g. a wall-clock watchdog on a loaded machine). It never counts as held or as violated; the
+// driver reports the run as INCONCLUSIVE.
+func (c *Ctx) Inconclusive(reason string) {
+	c.res.Inconclusive[reason]++
+	if c.Verbose {
+		fmt.Printf("  INCONCLUSIVE %s\n", reason)
+	}
 }
 
 func (c *Ctx) Skip(reason string) {
@@ -251,6 +262,9 @@ func RunCase(p *Property, s *Stratum, i int, tier Tier, seed uint64, res *ShardR
 	res.PerStratum[s.Name]++
 	defer func() {
 		if r := recover(); r != nil {
+			if _, ok := r.(Unjudged); ok {
+				return // already recorded through Inconclusive
+			}
 			st := string(debug.Stack())
 			c.Violation(fmt.Sprintf("panic: %v", r), map[string]any{"stack": trimStack(st)})
 		}
@@ -272,6 +286,9 @@ func trimStack(st string) string {
 	}
 	return strings.Join(keep, "\n")
 }
+
+// Unjudged is panicked by helpers that have recorded the case as inconclusive and want to abandon it.
+type Unjudged string
 
 // Safe runs f and returns a non-empty panic description if it panicked.
 func Safe(f func()) (panicked string) {
